@@ -60,8 +60,29 @@ def straightline_pointer_programs(max_ops):
     return out
 
 
+GROUP_MEMBERS = {'pointSize': 'int', 'bold': 'bool', 'family': 'QString'}
+GROUP_CONST = {'pointSize': ('lit', 'int', 9), 'bold': ('lit', 'bool', True), 'family': ('lit', 'QString', 'Mono')}
+
+
+def group_programs():
+    """grouped (gadget) bindings font.<member>: every dynamic member x every set of sibling members that are
+    constants (none / one / two) -- a constant sibling must not swallow the dynamic one"""
+    exprs = {'int': [P('a', 'ival'), ('prop', P('a', 'next'), 'ival'), ('bin', '+', P('a', 'ival'), ('lit', 'int', 1))],
+             'bool': [P('a', 'flag'), ('bin', '&&', ('bin', '!=', P('a', 'next'), ('lit', 'null', None)), ('prop', P('a', 'next'), 'flag'))],
+             'QString': [P('a', 'sval'), ('bin', '+', P('b', 'sval'), ('lit', 'QString', '!'))]}
+    out = []
+    for m, ty in GROUP_MEMBERS.items():
+        others = [x for x in GROUP_MEMBERS if x != m]
+        for sib in ([], [others[0]], [others[1]], others):
+            for e in exprs[ty]:
+                p = D.Program('binding', ty, e, tag='grouped-binding')
+                p.group = ('font', m, [(x, GROUP_CONST[x]) for x in sib])
+                out.append(p)
+    return out
+
+
 def pointer_programs(tier, rng):
-    progs = straightline_pointer_programs(3 if tier == 'thorough' else 2)
+    progs = straightline_pointer_programs(3 if tier == 'thorough' else 2) + group_programs()
     I = lambda v: ('lit', 'int', v)
     reads = [('ival', 'int'), ('flag', 'bool'), ('sval', 'QString')]
     pes = ptr_exprs(3 if tier == 'thorough' else 2)
@@ -183,7 +204,8 @@ class TwoState:
         self.impl_results, self.impl_bad = results, bad
         # static connections
         static = []
-        for sender, c, sig, ov in hdr.static_connections(suffix):
+        gsuffix = prog.group_suffix() if prog.group is not None else suffix
+        for sender, c, sig, ov in hdr.static_connections(gsuffix):
             tok, j = cxx.scan_operand(sender, 0)
             if tok[0] == 'obj':
                 o = tok[1]
@@ -205,12 +227,25 @@ class TwoState:
                 self.problems.append(f'{sig}: connected overload {ov}, documented rule picks {full.args}')
         # setup(): every binding has setup* and update*, all setups before all updates
         calls = hdr.setup_calls
-        if calls.count('setup' + suffix) != 1 or calls.count('update' + suffix) != 1:
-            self.problems.append(f'setup() does not call setup{suffix}/update{suffix} exactly once')
-        tgt, setter, evalfn = hdr.update_target(suffix)
-        want = cls.prop(G.TARGET[prog.ty]).write
-        if tgt != f'this->ui_->{prog.target()}' or setter != want or evalfn != 'eval' + suffix:
-            self.problems.append(f'update{suffix} writes {tgt}->{setter}({evalfn}())')
+        if calls.count('setup' + gsuffix) != 1 or calls.count('update' + gsuffix) != 1:
+            self.problems.append(f'setup() does not call setup{gsuffix}/update{gsuffix} exactly once')
+        if prog.group is None:
+            tgt, setter, evalfn = hdr.update_target(suffix)
+            want = cls.prop(G.TARGET[prog.ty]).write
+            if tgt != f'this->ui_->{prog.target()}' or setter != want or evalfn != 'eval' + suffix:
+                self.problems.append(f'update{suffix} writes {tgt}->{setter}({evalfn}())')
+        else:
+            # grouped value: update<G>() writes target->setG(evalG(target->g())), evalG applies this member
+            g, m = prog.group[0], prog.group[1]
+            gp = cls.prop(g)
+            ub = [l.strip() for l in hdr.funcs['update' + gsuffix].body]
+            want_u = f'this->ui_->{prog.target()}->{gp.write}(this->eval{gsuffix}(this->ui_->{prog.target()}->{gp.read}()));'
+            if want_u not in ub:
+                self.problems.append(f'update{gsuffix} does not write {want_u}')
+            eb = [l.strip() for l in hdr.funcs.get('eval' + gsuffix, cxx.Func('', '', [], [])).body]
+            want_m = f'a.set{m[0].upper() + m[1:]}(this->eval{suffix}());'
+            if want_m not in eb or 'return a;' not in eb:
+                self.problems.append(f'eval{gsuffix} does not apply {want_m}')
         return ex
 
     def observed_after(self, r):
@@ -238,7 +273,7 @@ class TwoState:
         if v1 is None:
             return None
         cls = self.env.cls('VNode')
-        pairs = [(o, p.name, p) for o in self.s1.universe() if self.env.objects[o] == 'VNode' for p in cls.all_props().values()]
+        pairs = [(o, p.name, p) for o in self.s1.universe() if self.env.objects[o] == 'VNode' for p in cls.all_props().values() if p.ty != 'QFont']
         disj = []
         for r in self.impl_results:
             obs = self.observed_after(r)
@@ -359,7 +394,51 @@ def replay_history(prog, doc, cli, hdr, d):
     return got[0] != exp, info
 
 
+def any_dynamic(ss):
+    return 'prop' in repr(ss) or 'iprop' in repr(ss)
+
+
 class C02Suite(S.Suite):
+    def missing_function(self, p, doc, cli):
+        """an accepted binding that reads object state has no update/eval code: it can never become current.
+        Replay = the real CLI on a document holding only this binding."""
+        import copy
+        # does the value really depend on object state?  (z3: two states with different, defined values)
+        ts = TwoState(p, None, len(doc.programs), False)
+        v1, d1 = ts.ref_value(ts.s1)
+        v2, d2 = ts.ref_value(ts.s2)
+        w = z3.Solver()
+        w.set('timeout', D.Z3_TIMEOUT_MS)
+        w.add(*(list(ts.s1.wf()) + list(ts.s2.wf())))
+        w.add(d1, d2, z3.Not(equal(v1, v2)))
+        r = w.check()
+        if r == z3.unsat:
+            self.stats['state_independent_value_embedded_as_constant'] += 1
+            return
+        if r != z3.sat:
+            self.stats['undecided'] += 1
+            return
+        self.stats['dynamic_binding_without_code'] += 1
+        q = copy.copy(p)
+        d = C.new_replay_dir(self.res.prop, f'nocode-{self.stats["dynamic_binding_without_code"]:02d}')
+        doc1, cli1, rej = D.translate(self.qmluic, os.path.join(d, 'cli'), [q])
+        if doc1 is None:
+            self.res.inconc(f'single-binding document rejected at replay: {rej}')
+            return
+        hdr1 = cxx.Header(cli1.header)
+        with open(os.path.join(d, 'Doc.qml'), 'w') as f:
+            f.write(doc1.text)
+        with open(os.path.join(d, 'uisupport_doc.h'), 'w') as f:
+            f.write(cli1.header)
+        with open(os.path.join(d, 'doc.ui'), 'w') as f:
+            f.write(cli1.ui or '')
+        if ('eval' + q.suffix()) in hdr1.funcs:
+            self.res.inconc(f'binding without code in the batch document has code when translated alone:\n{p.source()}')
+            return
+        self.res.violation({'site': 'binding selection', 'shape': p.tag},
+                           f'accepted binding reads object state but no update/eval code is generated for it (setup() never connects it; the target stays at its .ui value):\n{p.source()}', d)
+
+
     def one(self, p, doc, cli, hdr, query_name, make_query, replay_fn):
         st = self.stats
         try:
@@ -372,6 +451,9 @@ class C02Suite(S.Suite):
             st['ill_typed_late'] += 1
             return
         if v.status in ('no-function', 'no-value'):
+            if v.status == 'no-function' and L.has_dynamic(p.body) if p.form == 'expr' else any_dynamic(p.body):
+                self.missing_function(p, doc, cli)
+                return
             st['folded_to_constant(no function)'] += 1
             return
         st['programs'] += 1
